@@ -124,6 +124,13 @@ instance : DecidableEq J := fun a b =>
 /-- Python-style results. -/
 abbrev Res (α : Type) := Except PyErr α
 
+instance instDecEqExcept {ε α : Type} [DecidableEq ε] [DecidableEq α] : DecidableEq (Except ε α) := fun a b =>
+  match a, b with
+  | .ok x, .ok y => if h : x = y then isTrue (by rw [h]) else isFalse (fun e => h (by injection e))
+  | .error x, .error y => if h : x = y then isTrue (by rw [h]) else isFalse (fun e => h (by injection e))
+  | .ok _, .error _ => isFalse (fun e => by injection e)
+  | .error _, .ok _ => isFalse (fun e => by injection e)
+
 /-- association-list lookup (first match) -/
 def lookup (k : Str) : Fields → Option J
   | [] => none
